@@ -49,6 +49,8 @@ def main():
     for sid in ids:
         d = os.path.join(SEEDED, sid)
         meta = json.load(open(os.path.join(d, "meta.json")))
+        if meta.get("retired"):
+            continue
         prop = meta["property"]
         wt = "/tmp/seeded-wt-%s-%d" % (sid, os.getpid())
         sh(["git", "-C", "/repo", "worktree", "remove", "--force", wt])
